@@ -293,6 +293,12 @@ func (w *World) boot(n *Node, bootstrap *raft.Configuration) *Inc {
 	n.everBooted = true
 	n.restartAt = time.Time{}
 	inc.bootSeq = w.sim.Tick()
+	if rs := w.cfg.ClockRates; len(rs) > 0 && !w.quiet {
+		if rate := rs[n.idx%len(rs)]; rate != 1000 && w.sim.ClockRate(inc.tag) != rate {
+			w.sim.SetClockRate(inc.tag, rate)
+			w.stats.fault("clock_rate_skewed")
+		}
+	}
 	w.event("boot %s", inc.tag)
 	w.stats.Boots++
 	simrt.GoTag("boot", inc.tag, func() {
